@@ -764,7 +764,7 @@ def splice_generator_loop(h, binding, loop, caller_names, tag, nonnull=None, max
             sub = {}
             for nm, v in pairs:
                 uses = sum(1 for b_ in new_body for x in ast.walk(b_) if isinstance(x, ast.Name) and x.id == nm and isinstance(x.ctx, ast.Load))
-                if nm not in body_stored_here and (_pure(v) or isinstance(v, ast.Constant) or uses <= 1):
+                if nm not in body_stored_here and nm not in (names_outside_loop or set()) and (_pure(v) or isinstance(v, ast.Constant) or uses <= 1):
                     sub[nm] = v
                 else:
                     pre_assign.append(ast.Assign(targets=[ast.Name(id=nm, ctx=ast.Store())], value=v, lineno=getattr(loop, "lineno", 0), col_offset=0))
@@ -1118,6 +1118,62 @@ def inline_new_helpers(repo, new_funcs, resolve_helper, bind_args, max_rounds=2)
 
 
 # --------------------------------------------------------------------------- tuple records -> scalar locals
+def record_locals_as_tuples(repo, mod, fnode):
+    """a local T that only ever holds None or a construction K(..) of one plain NamedTuple record class, read as T.field / T[i] / `T is None`
+    / full unpacking, is rewritten (in a deep copy) to hold the tuple of the arguments, with T.field read as T[index of field]"""
+    from .normalize import record_fields
+    fnode = copy.deepcopy(fnode)
+    assigns = {}
+    for n in walk_own(fnode):
+        if isinstance(n, ast.Assign) and len(n.targets) == 1 and isinstance(n.targets[0], ast.Name):
+            assigns.setdefault(n.targets[0].id, []).append(n)
+    changed = False
+    for T, defs in assigns.items():
+        ctors = [d for d in defs if isinstance(d.value, ast.Call) and isinstance(d.value.func, ast.Name)]
+        if not ctors or not all(d in ctors or (isinstance(d.value, ast.Constant) and d.value.value is None) for d in defs):
+            continue
+        names = {d.value.func.id for d in ctors}
+        if len(names) != 1:
+            continue
+        K = names.pop()
+        fields = record_fields(repo, mod, K, allow_methods=True)
+        cq = repo.chase(mod, K)
+        cn = repo.classes.get(cq) if cq else None
+        if fields is None or (cn is not None and not any(U(b) in ("NamedTuple", "typing.NamedTuple") for b in cn.bases)):
+            continue
+        ok = True
+        for d in ctors:
+            c = d.value
+            if any(isinstance(a, ast.Starred) for a in c.args) or any(k.arg is None for k in c.keywords) or len(c.args) + len(c.keywords) != len(fields):
+                ok = False
+        if any(isinstance(x, ast.Name) and x.id == T and isinstance(x.ctx, ast.Store) for n in ast.walk(fnode) for x in ([n.target] if isinstance(n, (ast.For, ast.AugAssign)) else [])):
+            ok = False
+        if not ok:
+            continue
+        for d in ctors:
+            c = d.value
+            vals = dict(zip(fields, c.args))
+            vals.update({k.arg: k.value for k in c.keywords})
+            if set(vals) != set(fields):
+                ok = False
+                break
+            d.value = ast.Tuple(elts=[vals[fl] for fl in fields], ctx=ast.Load())
+        if not ok:
+            continue
+
+        class RW(ast.NodeTransformer):
+            def visit_Attribute(self, n):
+                self.generic_visit(n)
+                if isinstance(n.value, ast.Name) and n.value.id == T and isinstance(n.ctx, ast.Load) and n.attr in fields:
+                    return ast.copy_location(ast.Subscript(value=n.value, slice=ast.Constant(value=fields.index(n.attr)), ctx=ast.Load()), n)
+                return n
+        fnode = RW().visit(fnode)
+        changed = True
+    if changed:
+        ast.fix_missing_locations(fnode)
+    return fnode, changed
+
+
 def scalarise_tuple_records(fnode):
     """a local T that only ever holds None or an n-tuple display and is only read by full unpacking, constant indexing or a
     None test is replaced by n locals T__0 .. T__{n-1} (returns a transformed deep copy and the list of records rewritten)"""
